@@ -3,8 +3,8 @@
 (* state machine, one named action per instruction kind.                     *)
 (*                                                                           *)
 (* A *case* is  [id, mods : Seq(module), fn : function name,                 *)
-(*               args : Seq(word), ext : Seq([name, rets : Seq(word)]),      *)
-(*               fuel : Nat]                                                 *)
+(*               argv : Seq(Seq(word))  (argument vectors),                  *)
+(*               ext : Seq([name, rets : Seq(word)]), fuel : Nat]            *)
 (* The machine runs fn(args) on mods[1] ("before"), records the observation, *)
 (* then on mods[2], mods[3], ... ("after" artifacts: the same module after   *)
 (* an optimisation pass, after a print/parse round trip, ...) and the        *)
@@ -23,6 +23,7 @@ NChunks == 64
 
 VARIABLES chunk,   \* fan-out helper (0 = not chosen yet)
           i,       \* case under execution (0 = none yet)
+          av,      \* argument vector of the case under execution
           ph,      \* phase = index into Cases[i].mods
           stack,   \* call stack, top = last element
           mem,     \* memory cells 1..Len(mem)
@@ -35,7 +36,7 @@ VARIABLES chunk,   \* fan-out helper (0 = not chosen yet)
           gaddr    \* address of every global of the current module
 
 mvars == <<stack, mem, calls, status, why, ret, steps, gaddr>>
-vars == <<chunk, i, ph, stack, mem, calls, status, why, ret, steps, obs0, gaddr>>
+vars == <<chunk, i, av, ph, stack, mem, calls, status, why, ret, steps, obs0, gaddr>>
 
 Uninit == -1
 Unmapped == -2
@@ -80,8 +81,8 @@ InitCells(parts, k, ga, pb) ==
 VarCells(g, ga, pb) ==
     IF g.hasinit
     THEN LET c == InitCells(g.init, 1, ga, pb)
-         IN [j \in 1..g.size |-> IF j <= Len(c) THEN c[j] ELSE 0]
-    ELSE [j \in 1..g.size |-> 0]
+         IN Mk([j \in 1..g.size |-> IF j <= Len(c) THEN c[j] ELSE 0])
+    ELSE Mk([j \in 1..g.size |-> 0])
 
 RECURSIVE MemR(_, _, _, _, _)
 MemR(G, k, ga, pb, acc) ==
@@ -98,12 +99,12 @@ FnIndex(name, m) == LET S == {k \in 1..Len(m.funcs) : m.funcs[k].name = name}
 NewFrame(m, fi, argvals, dst, base) ==
     LET F == m.funcs[fi] IN
     [f |-> fi, b |-> F.entry, k |-> 1, prev |-> 0, dst |-> dst, base |-> base,
-     env |-> [v \in 1..F.nvals |->
+     env |-> Mk([v \in 1..F.nvals |->
                  IF \E p \in 1..Len(F.params) : F.params[p].id = v
                  THEN argvals[CHOOSE p \in 1..Len(F.params) : F.params[p].id = v]
-                 ELSE Poison]]
+                 ELSE Poison])]
 
-StartPhase(c, p) ==
+StartPhase(c, a, p) ==
     LET m == c.mods[p]
         lay == LayoutR(m.globals, 1, GlobalBase, <<>>)
         fi == FnIndex(c.fn, m)
@@ -112,9 +113,9 @@ StartPhase(c, p) ==
        /\ calls' = <<>>
        /\ ret' = Poison
        /\ steps' = 0
-       /\ IF fi = 0 \/ Len(m.funcs[fi].params) # Len(c.args)
+       /\ IF fi = 0 \/ Len(m.funcs[fi].params) # Len(c.argv[a])
           THEN status' = "stuck" /\ why' = "no such function" /\ stack' = <<>>
-          ELSE status' = "run" /\ why' = "" /\ stack' = <<NewFrame(m, fi, c.args, 0, 0)>>
+          ELSE status' = "run" /\ why' = "" /\ stack' = <<NewFrame(m, fi, c.argv[a], 0, 0)>>
 
 (* ---- current instruction --------------------------------------------------- *)
 Top == stack[Len(stack)]
@@ -145,9 +146,9 @@ Advance(d, v) ==
 (* ---- memory ------------------------------------------------------------------ *)
 AddrOK(w) == w # Poison /\ WFitsNat(w)
 Mapped(a, n) == a >= 1 /\ a + n - 1 <= Len(mem) /\ \A j \in a..(a + n - 1) : mem[j] # Unmapped
-Cells(a, n) == [j \in 1..n |-> mem[a + j - 1]]
+Cells(a, n) == Mk([j \in 1..n |-> mem[a + j - 1]])
 AllInit(c) == \A j \in 1..Len(c) : c[j] >= 0
-WriteCells(mm, a, c) == [j \in 1..Len(mm) |-> IF j >= a /\ j < a + Len(c) THEN c[j - a + 1] ELSE mm[j]]
+WriteCells(mm, a, c) == Mk([j \in 1..Len(mm) |-> IF j >= a /\ j < a + Len(c) THEN c[j - a + 1] ELSE mm[j]])
 
 (* ---- arithmetic --------------------------------------------------------------- *)
 BinopDefined(op, a, b, t) ==
@@ -331,7 +332,7 @@ CalleeGlobal(o) ==
 
 DoCall(isfn) ==
     LET g == CalleeGlobal(I.c)
-        argv == [j \in 1..Len(I.args) |-> Opv(I.args[j])]
+        argv == Mk([j \in 1..Len(I.args) |-> Opv(I.args[j])])
     IN
     IF g = 0 THEN Halt("undefined", "call through bad pointer")
     ELSE IF \E j \in 1..Len(argv) : argv[j] = Poison THEN Halt("undefined", "poison argument")
@@ -367,11 +368,11 @@ Step == /\ ~OutOfFuel
         /\ \/ Const \/ Binop \/ Unop \/ Cast \/ AddressOf \/ Alloc \/ Literal \/ Load \/ Store
            \/ CopyBlob \/ Undef \/ Jump \/ CJump \/ StrayPhi \/ Return \/ Exit \/ Call \/ PCall
            \/ OutOfModel \/ Unknown \/ FellOff
-        /\ UNCHANGED <<chunk, i, ph, obs0>>
+        /\ UNCHANGED <<chunk, i, av, ph, obs0>>
 
 Exhaust == /\ OutOfFuel
            /\ status' = "fuel" /\ why' = "step budget"
-           /\ UNCHANGED <<chunk, i, ph, obs0, stack, mem, calls, ret, steps, gaddr>>
+           /\ UNCHANGED <<chunk, i, av, ph, obs0, stack, mem, calls, ret, steps, gaddr>>
 
 (* ---- observation ------------------------------------------------------------- *)
 GlobalBytes(k) == Cells(gaddr[k], M.globals[k].size)
@@ -390,18 +391,19 @@ NextPhase ==
     /\ (ph = 1 => status = "ok")          \* nothing to compare unless the original is fully defined
     /\ obs0' = IF ph = 1 THEN [o |-> Obs, steps |-> steps] ELSE obs0
     /\ ph' = ph + 1
-    /\ StartPhase(C, ph + 1)
-    /\ UNCHANGED <<chunk, i>>
+    /\ StartPhase(C, av, ph + 1)
+    /\ UNCHANGED <<chunk, i, av>>
 
 (* ---- batch driver: two-level fan-out over the cases ------------------------- *)
-Init == /\ chunk = 0 /\ i = 0 /\ ph = 0 /\ stack = <<>> /\ mem = <<>> /\ calls = <<>>
+Init == /\ chunk = 0 /\ i = 0 /\ av = 0 /\ ph = 0 /\ stack = <<>> /\ mem = <<>> /\ calls = <<>>
         /\ status = "idle" /\ why = "" /\ ret = Poison /\ steps = 0 /\ obs0 = <<>> /\ gaddr = <<>>
 PickChunk == /\ chunk = 0 /\ chunk' \in 1..NChunks
-             /\ UNCHANGED <<i, ph, stack, mem, calls, status, why, ret, steps, obs0, gaddr>>
+             /\ UNCHANGED <<i, av, ph, stack, mem, calls, status, why, ret, steps, obs0, gaddr>>
 PickCase == /\ chunk > 0 /\ i = 0
             /\ i' \in {k \in 1..Len(Cases) : k % NChunks = chunk - 1}
+            /\ av' \in 1..Len(Cases[i'].argv)
             /\ ph' = 1 /\ obs0' = <<>>
-            /\ StartPhase(Cases[i'], 1)
+            /\ StartPhase(Cases[i'], av', 1)
             /\ UNCHANGED chunk
 Next == PickChunk \/ PickCase \/ Step \/ Exhaust \/ NextPhase
 
